@@ -95,6 +95,58 @@ def _generate(rng, tier):
                 offs.append(p)
             cases.append(Case("stream", [enc(c) for c in chunks],
                               meta={"group": "long%d" % g, "kind": kind, "bad": bad, "k": k, "stream": b, "ents": ents, "nt": len(chunks) > 1, "offs": offs}))
+    # a stream of more than 1 MiB (and one of more than 4 MiB in the thorough tier) handed over in ONE write, in 64 KiB
+    # blocks and in 8 KiB blocks: the size of a single write is the caller's business
+    for g, total in enumerate([1200000] if tier == "quick" else [1200000, 4300000]):
+        k = 40
+        ents = stream_of(rng, k, None)
+        pad = "".join("DESCRIPTION=%s\n" % ("filler line %d " % i * 6) for i in range(total // k // 100))
+        ents = [t.replace("DESCRIPTION=", pad + "DESCRIPTION=", 1) if "DESCRIPTION=" in t else t for t in ents]
+        b = "".join(t + "\n" for t in ents).encode("utf-8")
+        for kind, sz in (("whole", len(b)), ("fixed-65536", 65536), ("fixed-8192", 8192)):
+            chunks = [b[i:i + sz] for i in range(0, len(b), sz)]
+            offs, p = [], 0
+            for c in chunks[:-1]:
+                p += len(c)
+                offs.append(p)
+            cases.append(Case("stream", [enc(c) for c in chunks],
+                              meta={"group": "huge%d" % g, "kind": kind, "bad": None, "k": k, "stream": b, "ents": ents, "nt": len(chunks) > 1, "offs": offs}))
+    # a malformed entry that is long and full of multi-byte characters (2-, 3- and 4-byte, at every alignment): reported as
+    # an error whatever byte offsets an implementation looks at, for every chunking
+    for g in range(6 if tier == "quick" else 60):
+        k = rng.choice([1, 2, 3])
+        bad = rng.randrange(k)
+        ents = stream_of(rng, k, bad)
+        ch = rng.choice(["\u00e9", "\u65e5", "\U0001F600", "\u20ac"])
+        shift = "a" * (g % 4)
+        L = rng.choice([200, 400, 1500, 3000, 22000])
+        where = rng.choice(["first", "last", "each"])
+        ls = ents[bad].split("\n")[:-1]
+        carpet = "DESCRIPTION=" + shift + ch * L
+        if where == "first":
+            ls.insert(0, carpet)
+        elif where == "last":
+            ls.append(carpet)
+        else:
+            carpet = "DESCRIPTION=" + shift + ch * min(L, 1500)
+            ls = [x for l in ls for x in (l, carpet)]
+        ents[bad] = "".join(l + "\n" for l in ls)
+        b = "".join(t + "\n" for t in ents).encode("utf-8")
+        n_ = len(b)
+        parts = [("whole", [b])]
+        for sz in (1, 7, 512, 1000, 4096):
+            if n_ // sz < 3000 and n_ * (n_ // sz) < 40000000:
+                parts.append(("fixed-%d" % sz, [b[i:i + sz] for i in range(0, n_, sz)]))
+        for _ in range(4):
+            cs = sorted(rng.sample(range(1, n_), 3))
+            parts.append(("cut3", [b[i:j] for i, j in zip([0] + cs, cs + [n_])]))
+        for kind, chunks in parts:
+            offs, p = [], 0
+            for c in chunks[:-1]:
+                p += len(c)
+                offs.append(p)
+            cases.append(Case("stream", [enc(c) for c in chunks],
+                              meta={"group": "carpet%d" % g, "kind": kind, "bad": bad, "k": k, "stream": b, "ents": ents, "nt": len(chunks) > 1, "offs": offs}))
     for g in range(n):
         k = rng.choice([1, 2, 2, 3, 4])
         bad = None if g % 2 == 0 else rng.randrange(k)
